@@ -56,6 +56,8 @@ CONFIGS = {
     # the library as a shared object (production flags) + a public-API driver that watches its writable segment
     "so": dict(_cfg("gcc", ["-O2", "-g"], STD + ["-DUSE_ASM_X86_64=1"], [], ["-lpthread"], src="sodriver.c", wrap=False), so=True),
     "so_tsan": dict(_cfg("gcc", ["-O1", "-g"], STD + ["-DUSE_ASM_X86_64=1"], ["-fsanitize=thread"], ["-lpthread"], src="sodriver.c", wrap=False), so=True),
+    # libFuzzer over the untrusted-input entry points (thorough tier of C07)
+    "fuzz": _cfg("clang", ["-O1", "-gdwarf-4"], STD + ["-DUSE_ASM_X86_64=1", "-DVERIFY"], ["-fsanitize=fuzzer,address,undefined", "-fno-sanitize-recover=all"], src="fuzzdrv.c", wrap=False),
     # constant-time monitor: the library as its own translation units with the shipped flags + -DVALGRIND, public-API driver, run under memcheck
     "ct_default": dict(_cfg("gcc", ["-O2", "-g", "-std=c90", "-fPIC"], STD + ["-DUSE_ASM_X86_64=1", "-DVALGRIND"], [], [], src="ctdriver.c", wrap=False), ct=True),
     "ct_int64": dict(_cfg("gcc", ["-O2", "-g", "-std=c90", "-fPIC"], STD + ["-DUSE_FORCE_WIDEMUL_INT64=1", "-DVALGRIND"], [], [], src="ctdriver.c", wrap=False), ct=True),
